@@ -97,12 +97,26 @@ struct Client<'a> {
     nontrivial: bool,
     /// the last `write` returned Ok(0) for a non-empty buffer because the inner writer did
     last_was_refusal: bool,
+    /// strict invariant checked on every `stride`-th successful call (long-lived histories)
+    stride: usize,
+    since_check: usize,
 }
 
 impl Client<'_> {
     fn note(&mut self, s: String) {
         if self.record {
             self.log.push(s);
+        }
+    }
+
+    /// Is the strict (O(input)) invariant due after this successful call?
+    fn due(&mut self) -> bool {
+        self.since_check += 1;
+        if self.since_check >= self.stride {
+            self.since_check = 0;
+            true
+        } else {
+            false
         }
     }
 
@@ -243,8 +257,10 @@ impl Client<'_> {
                     .unwrap());
                 }
                 self.c += n;
-                if let Some(v) = self.check_invariants(true, &what) {
-                    return Err(v);
+                if self.due() {
+                    if let Some(v) = self.check_invariants(true, &what) {
+                        return Err(v);
+                    }
                 }
                 Ok(false)
             }
@@ -268,8 +284,10 @@ impl Client<'_> {
                 // arrived is judged by the invariants below, a stream that spins on a writer
                 // that refuses data for good by the step budget)
                 self.c += buf.len();
-                if let Some(v) = self.check_invariants(true, &what) {
-                    return Err(v);
+                if self.due() {
+                    if let Some(v) = self.check_invariants(true, &what) {
+                        return Err(v);
+                    }
                 }
                 Ok(false)
             }
@@ -435,6 +453,8 @@ pub fn execute(t: &Trace, stats: &mut Stats, record: bool) -> Outcome {
         map,
         nontrivial: false,
         last_was_refusal: false,
+        stride: check_stride(t.ops.len()),
+        since_check: 0,
     };
     client.hash.str(&t.surface);
     if t.faults.is_empty() {
